@@ -257,6 +257,8 @@ def spec_dict(case):
 
 
 def needs_pgen(case):
+    if case.get("pgen_ops"):
+        return True
     return any(isinstance(p["label"], list) or p.get("name") for p in case.get("params", []))
 
 
@@ -270,7 +272,36 @@ def _plain(o):
     return o
 
 
-def run_impl(case, tag):
+def build_pgen(case):
+    """The ParameterGenerator of a case that is built through the API.  With
+    "pgen_ops" it is built in several steps -- [add, key, values, label, name]
+    (stale first versions that are overridden later, keys added late) with
+    reads in between ([read, kind]) -- and ends as the table case["params"]."""
+    from maestrowf.datastructures.core import ParameterGenerator
+    parameters = ParameterGenerator()
+    ops = case.get("pgen_ops")
+    if not ops:
+        for p in case["params"]:
+            parameters.add_parameter(p["key"], list(p["values"]), p["label"], p.get("name"))
+        return parameters
+    for op in ops:
+        if op[0] == "add":
+            parameters.add_parameter(op[1], list(op[2]), op[3], op[4])
+        elif op[1] == "iter":
+            for combo in parameters:
+                str(combo)
+        elif op[1] == "combinations":
+            list(parameters.get_combinations())
+        elif op[1] == "metadata":
+            parameters.get_metadata()
+        elif op[1] == "length":
+            _ = parameters.length, bool(parameters), dict(parameters.labels), dict(parameters.names)
+        elif op[1] == "first":
+            next(iter(parameters), None)
+    return parameters
+
+
+def run_impl(case, tag, hash_ws=False):
     """Returns (model_input dict | None, observable).  observable = "Raised" or
     the list of instance dicts.  model_input is None when the study could not
     even be constructed (then the case is outside the model's domain)."""
@@ -295,9 +326,7 @@ def run_impl(case, tag):
         environment.add(Variable("OUTPUT_PATH", root))
         environment.add(Variable("SPECROOT", os.path.abspath(specroot)))
     if needs_pgen(case):
-        parameters = ParameterGenerator()
-        for p in case["params"]:
-            parameters.add_parameter(p["key"], list(p["values"]), p["label"], p.get("name"))
+        parameters = build_pgen(case)
     else:
         parameters = spec.get_parameters()
 
@@ -333,7 +362,7 @@ def run_impl(case, tag):
                   parameters=parameters, steps=steps, out_path=root)
     study.setup_workspace()
     study.configure_study(throttle=0, submission_attempts=1, restart_limit=1,
-                          use_tmp=False, hash_ws=False, dry_run=True)
+                          use_tmp=False, hash_ws=hash_ws, dry_run=True)
     study.setup_environment()
     names = [st["name"] for st in m_steps]
     model["order"] = [names.index(n) for n in study.topological_sort() if n != SOURCE]
@@ -342,9 +371,11 @@ def run_impl(case, tag):
         dag.set_adapter(batch)
         dag.generate_scripts()
         obs = []
+        model["_ws"] = {}
         for name, rec in dag.values.items():
             if name == SOURCE:
                 continue
+            model["_ws"][name] = rec.workspace.value
             with open(rec.script, encoding="utf-8") as f:
                 script = f.read()
             rscript = None
@@ -361,9 +392,49 @@ def run_impl(case, tag):
     return model, obs
 
 
+def _map_strings(o, f):
+    if isinstance(o, str):
+        return f(o)
+    if isinstance(o, list):
+        return [_map_strings(x, f) for x in o]
+    if isinstance(o, dict):
+        return type(o)((k, _map_strings(v, f)) for k, v in o.items())
+    return o
+
+
+def erase_digests(obs, ws_hashed, ws_plain):
+    """Canonicalisation of a hash_ws=True run: the directory recorded on the
+    staged graph for instance X (record.workspace.value, root/step/<md5 of the
+    combination string>) is renamed, everywhere in the observable, to the
+    directory the hash_ws=False run records for the SAME instance X.  A path
+    that is no instance's workspace is not renamed -- a reference that does not
+    resolve to exactly the recorded workspace of an instance stays visible."""
+    if not isinstance(obs, list):
+        return obs
+    pairs = sorted(((h, ws_plain[n]) for n, h in ws_hashed.items() if n in ws_plain and h != ws_plain[n]),
+                   key=lambda hp: -len(hp[0]))
+
+    def f(x):
+        for h, pl in pairs:
+            x = x.replace(h, pl)
+        return x
+    return [_map_strings(i, f) for i in obs]
+
+
 def observe(case, tag):
     """Never lets an exception of the implementation escape."""
     try:
+        if case.get("hash_ws"):
+            # the model has no digest: stage once without hashing (for the
+            # instance -> directory map) and once with, erase the digests
+            model, obs0 = run_impl(case, tag)
+            model1, obs1 = run_impl(case, tag, hash_ws=True)
+            if model is None or model1 is None:
+                return model1 if model is not None else model, obs1
+            if isinstance(obs0, list) != isinstance(obs1, list):
+                model["exc"] = "hash_ws changes whether staging raises"
+                return model, ("Raised" if isinstance(obs0, list) else [])
+            return model, erase_digests(obs1, model1.get("_ws", {}), model.get("_ws", {}))
         return run_impl(case, tag)
     except Exception as e:
         return None, "EXC:%s:%s" % (type(e).__name__, str(e)[:300])
@@ -889,6 +960,72 @@ def load_corpus():
     return res
 
 
+def add_pgen_ops(rng, case):
+    """Build the (final) parameter table of the case through an API sequence."""
+    params = case["params"]
+    if not params:
+        return
+    reads = ["iter", "combinations", "metadata", "length", "first"]
+    nrow = len(params[0]["values"])
+    ops, late, stale = [], [], []
+    for k, p in enumerate(params):
+        final = ["add", p["key"], list(p["values"]), p["label"], p.get("name")]
+        c = rng.random()
+        if c < 0.4:
+            # a first version that is overridden after the generator was read
+            vals = [rng.choice(["old", 0, "stale v", 99]) for _ in range(nrow)]
+            lab = ["old%d" % i for i in range(nrow)] if rng.random() < 0.4 else "%s_old.%%%%" % p["key"]
+            ops.append(["add", p["key"], vals, lab, rng.choice([None, "old name"])])
+            stale.append(final)
+        elif c < 0.8 and k > 0:
+            late.append(final)          # the key itself arrives late (order of keys = order of first add)
+            continue
+        else:
+            ops.append(final)
+        if rng.random() < 0.7:
+            ops.append(["read", rng.choice(reads)])
+    # the order of first insertion decides the dict order: late keys go last
+    order = [o[1] for o in ops if o[0] == "add"] + [o[1] for o in late]
+    case["params"] = sorted(params, key=lambda p: order.index(p["key"]))
+    ops.append(["read", rng.choice(reads)])
+    tail = stale + late
+    rng.shuffle(tail)
+    # keep late keys in their relative order (it is the dict order)
+    lk = [o for o in tail if o in late]
+    it = iter(sorted(lk, key=lambda o: order.index(o[1])))
+    tail = [next(it) if o in late else o for o in tail]
+    for o in tail:
+        ops.append(o)
+        if rng.random() < 0.5:
+            ops.append(["read", rng.choice(reads)])
+    case["pgen_ops"] = ops
+    case["seq"] = "override" if stale else ("late" if late else "plain")
+
+
+def add_superset_child(rng, case):
+    """A child that uses strictly more parameters than its ordinary,
+    parameterised parent and refers to the parent's workspace in cmd and
+    restart (the shape on which hashed workspaces of parent and child differ)."""
+    params, steps = case["params"], case["steps"]
+    while len(params) < 2:
+        k = [x for x in PARAM_KEYS if x not in [p["key"] for p in params]][0]
+        n = len(params[0]["values"]) if params else 3
+        params.append({"key": k, "values": [rng.choice(["a", "b", 1, 2, 0.5]) for _ in range(n)], "label": "%s.%%%%" % k})
+    if len(params[0]["values"]) < 2:
+        for p in params:
+            p["values"] = list(p["values"]) + [rng.choice(["z", 7])]
+            if isinstance(p["label"], list):
+                p["label"] = list(p["label"]) + ["%s_last" % p["key"].lower()]
+    k1, k2 = params[0]["key"], params[1]["key"]
+    parent = steps[0]
+    parent["run"]["cmd"] += " --p=$(%s)" % k1
+    child = {"name": "child-x", "description": "superset child",
+             "run": OrderedDict([("cmd", "cat $(%s.workspace)/out $(%s) > $(WORKSPACE)/o" % (parent["name"], k2)),
+                                 ("depends", [parent["name"]]),
+                                 ("restart", "cp $(%s.workspace)/out . # $(%s.label)" % (parent["name"], k2))])}
+    steps.append(child)
+
+
 def generate(rng, n_valid, n_exotic):
     # a third of the valid stream walks through every shape of environment
     # (only variables / labels / dependencies, every mix, empty), half of those
@@ -899,7 +1036,14 @@ def generate(rng, n_valid, n_exotic):
             j = k // 3
             cases.append(gen_case(rng, shape=ENV_SHAPES[j % 8], api=(j // 8) % 2 == 0))
         else:
-            cases.append(gen_case(rng))
+            c = gen_case(rng)
+            if k % 6 == 1:
+                add_pgen_ops(rng, c)                  # "API sequence" stream
+            elif k % 6 == 2:
+                if k % 12 == 2:
+                    add_superset_child(rng, c)
+                c["hash_ws"] = True                   # hashed workspaces
+            cases.append(c)
     for k in range(n_exotic):
         cases.append(gen_case(rng, exotic=EXOTICS[k % len(EXOTICS)]))
     return cases
@@ -973,6 +1117,10 @@ def classify(ck, rows, errs, dist):
         dist["instances:%s" % ("raised" if obs == "Raised" else min(ninst, 12))] += 1
         dist["hyg:%s" % r.get("hyg")] += 1
         dist["hyg:%s:%s" % (stream.split(":")[0], r.get("hyg"))] += 1
+        if c.get("pgen_ops"):
+            dist["pgen_sequence:" + c.get("seq", "?")] += 1
+        if c.get("hash_ws"):
+            dist["hash_ws:%s" % ("superset_child" if any(s["name"] == "child-x" for s in c["steps"]) else "random")] += 1
         if c.get("shape"):
             dist["env_shape:%s:%s" % (c["shape"], "api" if c.get("api") else "cli")] += 1
         blob = json.dumps([st["run"] for st in c["steps"]], default=str)
@@ -1064,6 +1212,12 @@ def run(ck):
                       "labels, label lists and names, 1-6 steps with ordinary and _* dependencies, tokens in cmd / "
                       "restart / resource keys / description, adjacent and undefined tokens, $(shell), $VAR, ${VAR}, "
                       "nested brackets, workspace references to ordinary and funnel ancestors, non-ASCII data) plus "
+                      "parameter tables built through an API sequence (add_parameter with overrides and late keys, reads "
+                      "in between; the model gets the FINAL table), hash_ws=True studies (the model has no digest: the "
+                      "directory recorded on the staged graph for an instance, record.workspace.value, is renamed to the "
+                      "one the hash_ws=False run records for the same instance -- implementation to implementation for "
+                      "the directory names -- then C09_ok is evaluated as usual; a reference that is not exactly a "
+                      "recorded workspace stays un-renamed and fails), "
                       "an exotic stream (%s) and a small-scope stream for the core law against Python's own "
                       "str.replace; a case is distinct by its JSON, non-trivial when it stages and carries tokens" %
                       ", ".join(EXOTICS))
